@@ -207,7 +207,7 @@ def check(run, prog, tier):
     PI_TO = _to[0].get("pi", 1) if _to else 1
     P_TO = (_to[0].get("n") if _to else (cc.params[1].get("n") if len(cc.params or []) > 1 else "to"))
     import inline as _inl
-    gud = _inl.inlined(run.need(comm.funcs.get("get_user_data"), "get_user_data"))
+    gud = _inl.inlined(run.need(comm.funcs.get("get_user_data"), "get_user_data"), 2, None, True)
     run.saw(cc)
     run.saw(gud)
     to_id = [p.get("id") for p in cc.params if p["n"] == P_TO]
@@ -319,6 +319,9 @@ def check(run, prog, tier):
     run.need(nst >= 2, "stores of new input in get_user_data")
 
     # ---- C13-d producer and consumer agree on what a complete command is
+    import rules.scanfns as scanfns
+    SCANNERS, TAKERS = scanfns.find(comm)
+    run.need(SCANNERS, "the complete-command scanner of src/comm.c")
     run.rule("C13-d", "the 'command available' flag CMD_IN_BUF is raised only on the true edge of cmd_in_buf(ip) - the same scanner get_user_command relies on (first_cmd_in_buf/cmd_in_buf) - so that whether a line is delivered does not depend on how the bytes were split into reads", 2)
     nset = 0
     for f in sorted(prog.functions(), key=lambda x: (x.file, x.line)):
@@ -327,7 +330,7 @@ def check(run, prog, tier):
             nset += 1
             run.saw(f)
             g = [(strip(c), t) for c, t, B in cfgq.guards(f, b.id)]
-            ok = any(t and c.get("k") == "Call" and c.get("fn") in ("cmd_in_buf", "first_cmd_in_buf") for c, t in g)
+            ok = any(t and c.get("k") == "Call" and c.get("fn") in (SCANNERS | TAKERS) for c, t in g)
             run.ob("C13-d", "cmd-flag:%s:%s:%d" % (rel(f.file), f.name, j), ok, "CMD_IN_BUF raised under cmd_in_buf(ip)" if ok else "CMD_IN_BUF is raised under %s, not under the buffer scan cmd_in_buf(): a complete line followed by the start of the next one in the same read is not announced" % [show(c)[:40] for c, t in g][-2:],
                    f.file, n.get("l"), f.name, what="%s raises CMD_IN_BUF from a shortcut test instead of cmd_in_buf(): delivery of a complete line depends on where the read ended" % f.name)
     run.need(nset >= 2, "stores raising CMD_IN_BUF (found %d)" % nset)
@@ -556,7 +559,7 @@ def check(run, prog, tier):
             if not sized:
                 continue
             nd += 1
-            looks = {bid for bid in gud.reachable() if gud.branch_cond(bid) is not None and any(x.get("k") == "Call" and x.get("fn") == "cmd_in_buf" for x in walk(gud.branch_cond(bid)))}
+            looks = {bid for bid in gud.reachable() if gud.branch_cond(bid) is not None and any(x.get("k") == "Call" and x.get("fn") in SCANNERS for x in walk(gud.branch_cond(bid)))}
             # bytes that were already taken off the socket (completion buffer of an asynchronous read) cannot be
             # left there: on the edge `evt->buffer != NULL` the discard is the only option, whatever is pending
             taken = set()
